@@ -16,7 +16,14 @@ def run(chk):
         "decision callbacks (classifier, strategy, sleep handler, sleeper) do not raise ordinary exceptions; attempt_timeout_s=None",
     ]
     ok = chk.check_theorems()
-    rc.run_runner_check(chk, "C11", "proj_C11", OPTS, theorems_ok=ok)
+    # an outcome that reports a deferral / an abort presupposes that the sleep handler was consulted and obeyed (C16's clauses)
+    import oracles
+
+    def handler_protocol(seqs, obs):
+        return [(i, {"kind": "oracle", "oracle": "C16", "what": m, "script": s, "observed": o, "driver": "runner_driver"})
+                for i, (s, o) in enumerate(zip(seqs, obs)) for m in [oracles.check_seq("C16", s, o)] if m]
+
+    rc.run_runner_check(chk, "C11", "proj_C11", OPTS, theorems_ok=ok, extra_oracle=handler_protocol)
     # the outcome builders used when a Policy has no retry component, and circuit-open outcomes: Policy model
     import policy_common as pc
     pc.run_policy_check(chk, "C11", "proj_P12", {"mode": "execute", "p_no_retry": 0.6, "p_nested_coe": 0.3, "p_special": 0.3,
